@@ -51,6 +51,11 @@ trait PoolFace: Send + Sync {
     fn drain_extra(&self) -> usize {
         6
     }
+    /// Some(n) if a block id is the address of n bytes the owner may write (used by the free-running stress: a live block
+    /// keeps the bytes its owner wrote)
+    fn block_bytes(&self) -> Option<usize> {
+        None
+    }
 }
 
 // ---- SecureMemoryPool -------------------------------------------------------------------------
@@ -63,6 +68,9 @@ struct SecureFace {
     no_cache: bool,
 }
 impl PoolFace for SecureFace {
+    fn block_bytes(&self) -> Option<usize> {
+        Some(64)
+    }
     fn alloc(&self) -> Result<usize, String> {
         let p = self.pool.allocate().map_err(|e| e.to_string())?;
         let a = p.as_ptr() as usize;
@@ -125,6 +133,9 @@ struct LfFace {
     n_free: AtomicU64,
 }
 impl PoolFace for LfFace {
+    fn block_bytes(&self) -> Option<usize> {
+        Some(self.size)
+    }
     fn alloc(&self) -> Result<usize, String> {
         let r = self.pool.allocate(self.size).map(|p| p.as_ptr() as usize).map_err(|e| e.to_string());
         if r.is_ok() {
@@ -234,6 +245,9 @@ struct MpFace {
     chunk: usize,
 }
 impl PoolFace for MpFace {
+    fn block_bytes(&self) -> Option<usize> {
+        Some(self.chunk)
+    }
     fn alloc(&self) -> Result<usize, String> {
         self.pool.allocate().map(|p| p.as_ptr() as usize).map_err(|e| e.to_string())
     }
@@ -277,6 +291,9 @@ struct FcFace {
 unsafe impl Send for FcFace {}
 unsafe impl Sync for FcFace {}
 impl PoolFace for FcFace {
+    fn block_bytes(&self) -> Option<usize> {
+        Some(self.size)
+    }
     fn alloc(&self) -> Result<usize, String> {
         let a = self.pool.allocate(self.size).map_err(|e| e.to_string())?;
         let p = a.as_ptr() as usize;
@@ -578,6 +595,11 @@ fn mp_face() -> Arc<dyn PoolFace> {
 fn fc_face() -> Arc<dyn PoolFace> {
     fc_face_with(true)
 }
+/// secure_clear: freed blocks are scrubbed; 4 KiB blocks make the scrub long enough to be met by another thread
+fn fc_face_secure_clear() -> Arc<dyn PoolFace> {
+    let cfg = FixedCapacityPoolConfig { max_block_size: 4096, total_blocks: 3, alignment: 8, enable_stats: true, eager_allocation: true, secure_clear: true };
+    Arc::new(FcFace { pool: Box::new(FixedCapacityMemoryPool::new(cfg).expect("fixed-capacity pool")), size: 4096, total: 3, held: Mutex::new(HashMap::new()) })
+}
 fn fc_face_lazy() -> Arc<dyn PoolFace> {
     fc_face_with(false)
 }
@@ -610,10 +632,22 @@ fn pool_stress(make: fn() -> Arc<dyn PoolFace>, budget: std::time::Duration) -> 
                             stop.store(true, SeqCst);
                         }
                         drop(o);
+                        if let Some(nb) = face.block_bytes() {
+                            // the owner's bytes: must still be there when the block is given back
+                            unsafe { std::ptr::write_bytes(b as *mut u8, 0xA0 + tid as u8, nb) };
+                        }
                         mine.push(b);
                     }
                 } else if !mine.is_empty() {
                     let b = mine.remove(0);
+                    if let Some(nb) = face.block_bytes() {
+                        let bytes = unsafe { std::slice::from_raw_parts(b as *const u8, nb) };
+                        if let Some(pos) = bytes.iter().position(|x| *x != 0xA0 + tid as u8) {
+                            let mut g = fail.lock().unwrap();
+                            g.get_or_insert(Fail::new("contents_changed", format!("thread {tid} owns a block of {nb} bytes it filled with {:#x}; byte {pos} now reads {:#x}: somebody else wrote into a live block", 0xA0 + tid as u8, bytes[pos])).with_class("stress"));
+                            stop.store(true, SeqCst);
+                        }
+                    }
                     owners.lock().unwrap().remove(&b);
                     if let Err(e) = face.free(b) {
                         let mut g = fail.lock().unwrap();
@@ -814,6 +848,7 @@ fn main() {
             ("LockFreeMemoryPool[2 KiB]", lf_face_small),
             ("five_level::LockFreePool[2 KiB]", fl_face_small),
             ("FixedCapacityMemoryPool[3 blocks, lazy init]", fc_face_lazy),
+            ("FixedCapacityMemoryPool[3 blocks of 4 KiB, secure_clear]", fc_face_secure_clear),
             ("MemoryPool[max_chunks=2]", mp_face),
         ] {
             reg.add(zverif::stress::Stress(zverif::stress::StressSpec {
